@@ -58,7 +58,7 @@ def specB64 (s : Bytes) : Option Bytes :=
 
 /-- registered names (RFC 7515 §4.1, RFC 7519 §4.1) with the descriptions the tool uses, and which are NumericDate -/
 def registered : List (String × String × Bool) :=
-  [("alg", "Signature Algorithm", false), ("typ", "Type", false), ("jku", "JWK Set URL", false), ("jwk", "JSON Web Key", false),
+  [("alg", "Signature Algorithm", false), ("typ", "Type", false), ("cty", "Content Type", false), ("jku", "JWK Set URL", false), ("jwk", "JSON Web Key", false),
    ("kid", "Key Id", false), ("x5u", "X.509 URL", false), ("x5c", "X.509 Certificate Chain", false),
    ("x5t", "X.509 Thumbprint (SHA1)", false), ("x5t#S256", "X.509 Thumbprint (SHA256)", false), ("aud", "Audience", false),
    ("exp", "Expiration", true), ("iat", "Issued At", true), ("iss", "Issuer", false), ("jti", "JWT Id", false),
@@ -79,7 +79,14 @@ def checkDoc (claimsOnly : Bool) (kv : List (Bytes × JVal)) (attrs : List Attr)
     let shown := (attrs.filter fun a => a.name = strBytes descr).map (·.value)
     match kv.lookup (strBytes k) with
     | some (.str s) =>
-      if isDate then none   -- a string under a date name: not specified by the property
+      if isDate then
+        -- a registered claim with a string value: shown with that value — or, where the string spells a second count, as
+        -- the date it spells (the tool's long-standing leniency towards issuers that quote their NumericDates)
+        (if shown.contains s then none
+         else match Jwt.atoi s with
+           | some i => if shown.any (fun v => C17.readTime v = some (i, 0)) then none
+                       else some s!"registered_readback: {k} present with a string value but shown neither with it nor as the date it spells"
+           | none => some s!"registered_readback: {k} present with a string value but not shown with it")
       else if k = "alg" then
         if knownAlgs.any (fun a => strBytes a = s) then
           (if shown.any (fun v => isInfixB (strBytes "(" ++ s ++ strBytes ")") v) then none
@@ -88,7 +95,10 @@ def checkDoc (claimsOnly : Bool) (kv : List (Bytes × JVal)) (attrs : List Attr)
       else if shown.contains s then none else some s!"registered_readback: {k} present with a string value but not shown with it"
     | some (.num n) =>
       if isDate then
-        (if shown.any (fun v => C17.readTime v = some (n, 0)) then none
+        -- demanded for every second count of magnitude below 2^62 (beyond that the platform's time type wraps; the tool
+        -- may show nothing there)
+        (if n.natAbs ≥ 2 ^ 62 then none
+         else if shown.any (fun v => C17.readTime v = some (n, 0)) then none
          else some s!"numeric_dates: {k} is a JSON number but is not shown as the UTC time it denotes")
       else none
     | _ => none
